@@ -33,10 +33,33 @@ def payload(sc, entry, call=None, **extra):
     return d
 
 
+def o_invalid_answer(rec):
+    """A sleep handler that answers with something that is not a SleepDecision (a made-up value, or the plain string that merely spells
+    a decision) has answered nothing: the run must not act on it - no before_sleep, no sleep, no SCHEDULED / ABORTED event on the strength
+    of that answer.  (What the library does instead - it raises ValueError, which execute() may book as a failed attempt, KF4 - is
+    not judged here.)"""
+    tr = rec.trace
+    for i, ev in enumerate(tr):
+        if ev[0] == "handler" and ev[4] == "bogus":
+            for z in tr[i + 1:]:
+                if z[0] in ("before_sleep", "sleep", "dsleep") or (z[0] == "metric" and z[1] in ("scheduled", "aborted")):
+                    yield "invalid-handler-answer-obeyed", f"the sleep handler answered with a non-SleepDecision at attempt {ev[2]}; the run went on with {z[:4]}"
+                    return
+                if z[0] in ("handler", "op", "classify", "rclassify", "strategy", "poll", "fault"):
+                    break
+
+
 def check_recs(ctx, sc, entry, recs, oracle_list, stats):
     """Apply oracles to every call record; returns number of violations reported."""
     n = 0
     for rec in recs:
+        if any(ev[0] == "handler" and ev[4] == "bogus" for ev in rec.trace):
+            # an invalid handler answer is a fault of the caller's code: the run is judged only for not obeying it
+            ctx.cnt["calls_with_an_invalid_handler_answer"] += 1
+            for key, msg in o_invalid_answer(rec):
+                n += 1
+                ctx.viol(key, f"[{entry} call#{rec.idx}] {msg}", payload(sc, entry, rec.idx))
+            continue
         v = View(rec, sc)
         for o in oracle_list:
             for key, msg in o(v, stats) if o.__code__.co_argcount >= 2 else o(v):
@@ -74,6 +97,11 @@ def replay_trace(data, oracle_list, *, manual=True):
         for ev in rec.trace:
             print("   ", ev)
         print("    final:", rec.final)
+        if any(ev[0] == "handler" and ev[4] == "bogus" for ev in rec.trace):
+            for key, msg in o_invalid_answer(rec):
+                print(f"  !! [{key}] {msg}")
+                bad += 1
+            continue
         v = View(rec, sc)
         for o in oracle_list:
             for key, msg in o(v, {}) if o.__code__.co_argcount >= 2 else o(v):
